@@ -287,7 +287,9 @@ impl MioTcpListener {
     pub uninterp spec fn nonblocking(&self) -> bool;
     /// mio::net::TcpListener::from_std: wraps the OS socket as it is (its blocking mode included)
     #[verifier::external_body]
-    pub fn from_std(l: StdTcpListener) -> (r: MioTcpListener) ensures r.nonblocking() == l.nonblocking() { unimplemented!() }
+    pub fn from_std(l: StdTcpListener) -> (r: MioTcpListener)
+        ensures r.nonblocking() == l.nonblocking(), r.bound_to() == l.bound_to(), r.backlog() == l.backlog(), r.listening_stream() == l.listening_stream(),
+    { unimplemented!() }
 }
 impl MioUnixListener {
     pub uninterp spec fn nonblocking(&self) -> bool;
@@ -348,12 +350,73 @@ impl Copy for StdSocketAddr {}
 impl MioTcpListener {
     /// the address / backlog the OS socket was created with (socket.rs create_mio_tcp_listener: OS-level, NOT verified)
     pub uninterp spec fn bound_to(&self) -> StdSocketAddr;
-    pub uninterp spec fn backlog(&self) -> u32;
+    pub uninterp spec fn backlog(&self) -> i32;
 }
-#[verifier::external_body]
-pub fn create_mio_tcp_listener(addr: StdSocketAddr, backlog: u32, mptcp: &MpTcp) -> (r: io::Result<MioTcpListener>)
-    ensures r matches Ok(l) ==> l.bound_to() == addr && l.backlog() == backlog,
-{ unimplemented!() }
+/// socket2 as far as create_mio_tcp_listener uses it (ASSUMED: the OS calls do what their names say).  `&self`
+/// methods act on the OS socket, so what they establish is named by PROPHECY functions of the socket value.
+pub mod socket2 {
+    use super::*;
+    pub enum Domain { V4, V6 }
+    pub enum Type { STREAM, DGRAM }
+    pub enum Protocol { TCP, MPTCP, UDP }
+    #[verifier::external_body]
+    pub struct SockAddr { _p: () }
+    impl SockAddr { pub uninterp spec fn std(&self) -> StdSocketAddr; }
+    impl Domain {
+        #[verifier::external_body]
+        pub fn for_address(a: StdSocketAddr) -> (r: Domain) { unimplemented!() }
+    }
+    #[verifier::external_body]
+    pub struct Socket { _p: () }
+    impl Socket {
+        pub uninterp spec fn ty(&self) -> Type;
+        pub uninterp spec fn proto(&self) -> Protocol;
+        pub uninterp spec fn bound_to(&self) -> StdSocketAddr;
+        pub uninterp spec fn bound(&self) -> bool;
+        pub uninterp spec fn backlog(&self) -> i32;
+        pub uninterp spec fn listening(&self) -> bool;
+        pub uninterp spec fn nonblocking(&self) -> bool;
+        #[verifier::external_body]
+        pub fn new(d: Domain, t: Type, p: Option<Protocol>) -> (r: io::Result<Socket>)
+            ensures r matches Ok(s) ==> s.ty() == t && (p matches Some(pp) ==> s.proto() == pp),
+        { unimplemented!() }
+        #[verifier::external_body]
+        pub fn set_reuse_address(&self, b: bool) -> (r: io::Result<()>) { unimplemented!() }
+        #[verifier::external_body]
+        pub fn set_nonblocking(&self, b: bool) -> (r: io::Result<()>) ensures r is Ok ==> self.nonblocking() == b { unimplemented!() }
+        #[verifier::external_body]
+        pub fn bind(&self, a: &SockAddr) -> (r: io::Result<()>) ensures r is Ok ==> self.bound() && self.bound_to() == a.std() { unimplemented!() }
+        #[verifier::external_body]
+        pub fn listen(&self, n: i32) -> (r: io::Result<()>) ensures r is Ok ==> self.listening() && self.backlog() == n { unimplemented!() }
+    }
+}
+impl StdSocketAddr {
+    /// `addr.into()` : StdSocketAddr -> socket2::SockAddr
+    #[verifier::external_body]
+    pub fn into(self) -> (r: socket2::SockAddr) ensures r.std() == self { unimplemented!() }
+}
+impl MioTcpListener {
+    /// whether the OS socket is a bound, listening stream socket
+    pub uninterp spec fn listening_stream(&self) -> bool;
+}
+impl StdTcpListener {
+    pub uninterp spec fn bound_to(&self) -> StdSocketAddr;
+    pub uninterp spec fn backlog(&self) -> i32;
+    pub uninterp spec fn listening_stream(&self) -> bool;
+    /// `StdTcpListener::from(socket)`: an in-place conversion of the OS socket
+    #[verifier::external_body]
+    pub fn from(s: socket2::Socket) -> (r: StdTcpListener)
+        ensures r.nonblocking() == s.nonblocking(), r.bound_to() == s.bound_to(), r.backlog() == s.backlog(),
+            r.listening_stream() == (s.bound() && s.listening() && s.ty() is STREAM),
+    { unimplemented!() }
+}
+//@extract file=actix-server/src/socket.rs item="fn create_mio_tcp_listener" ret=r props=C01,C05 name=socket::create_mio_tcp_listener
+//@spec
+    ensures
+        // Ok means a bound, listening, NON-BLOCKING stream socket on exactly the requested address with the requested
+        // backlog (the accept loop drains a listener until WouldBlock)   [C01,C05]
+        r matches Ok(l) ==> l.bound_to() == addr && l.backlog() == backlog as i32 && l.nonblocking() && l.listening_stream(),
+//@end
 impl IoError {
     #[verifier::external_body]
     pub fn new<E>(kind: ErrorKind, e: E) -> (r: IoError) ensures r.spec_kind() == kind { unimplemented!() }
@@ -367,13 +430,13 @@ let mut sockets: Vec<MioTcpListener> = Vec::new();
         // Ok means at least one listener; every listener is bound to one of the resolved addresses with the requested
         // backlog, at most one per address   [C01]
         r matches Ok(v) ==> 1 <= v@.len() <= addr.resolved().len() && v@.len() <= 65536
-            && forall|k: int| 0 <= k < v@.len() ==> (#[trigger] v@[k]).backlog() == backlog && addr.resolved().contains(v@[k].bound_to()),
+            && forall|k: int| 0 <= k < v@.len() ==> (#[trigger] v@[k]).backlog() == backlog as i32 && addr.resolved().contains(v@[k].bound_to()),
 //@loop head="while r9_q.len() > 0"
         invariant
             r9_q@.len() + sockets@.len() <= addr.resolved().len(), addr.resolved().len() <= 65536,
             success == (sockets@.len() > 0),
             forall|j: int| 0 <= j < r9_q@.len() ==> addr.resolved().contains(#[trigger] r9_q@[j]),
-            forall|k: int| 0 <= k < sockets@.len() ==> (#[trigger] sockets@[k]).backlog() == backlog && addr.resolved().contains(sockets@[k].bound_to()),
+            forall|k: int| 0 <= k < sockets@.len() ==> (#[trigger] sockets@[k]).backlog() == backlog as i32 && addr.resolved().contains(sockets@[k].bound_to()),
         decreases r9_q@.len(),
 //@end
 
